@@ -11,12 +11,13 @@ func init() {
 	register(&propInfo{
 		ID:          "C10",
 		Run:         runC10,
-		MinObl:      20,
+		MinObl:      28,
 		Explanation: "Decided: R1 in NewAccessRequest every HandleTokenEndpointRequest call is reached only under (CanSkipClientAuth of that same handler returned true ∨ the AuthenticateClient error is nil); the authenticated client is installed into the request only on a nil error and an authentication failure is returned unchanged; R2 every module implementation of CanSkipClientAuth returns the constant false, except the JWT-bearer handler whose result is exactly GetGrantTypeJWTBearerCanSkipClientAuth; R3 revocation, PAR and device endpoints process (dispatch to handlers / build the request / succeed) only with a nil authentication error, and the PAR request is built for the authenticated client; R4 default strategy, non-assertion path: success returns the client looked up by the presented id and requires IsPublic(client) or a nil Hasher.Compare of that client's current or a rotated hash with the presented secret; for OpenID Connect clients the method gates hold (post credentials ⇒ client_secret_post, basic secret ⇒ client_secret_basic, public ⇒ none); BCrypt.Compare returns nil only if bcrypt.CompareHashAndPassword did; R5 the client-credentials grant refuses public clients; R6 no storage mutation other than the jti registry is reachable from client authentication. NOT decided: bcrypt itself, header parsing corner cases, the assertion path's claim checks (C15).",
 	})
 }
 
 func runC10(c *Ctx) {
+	defer checkOneTransport(c, "C10.R16")
 	defer checkParseSignatureFirst(c, "C10.R15")
 	defer checkJWKSCacheKey(c, "C10.R14")
 	defer checkCredentialsFromBody(c, "C10.R13")
